@@ -207,7 +207,13 @@ def check_nop(ck: Check):
                 if via == "execute" and stmt.strip().endswith(";"):
                     continue
                 ck.cov["evaluations"] += 1
-                fs1, c1 = new_instance(nop_regexes=pats or None)
+                try:
+                    fs1, c1 = new_instance(nop_regexes=pats or None)
+                except Exception as e:  # noqa: BLE001
+                    if not reported:
+                        reported = True
+                        ck.violation(f"connecting with nop_regexes={pats} raised {type(e).__name__}: {str(e)[:150]}", {"nop_regexes": pats, "exception": type(e).__name__})
+                    continue
                 fs2, c2 = new_instance()
                 for c in (c1, c2):
                     c.cursor().execute("insert into c16_t values (1, 'one')")
